@@ -234,10 +234,28 @@ pub fn after_step(b: &Built, spec: &CaseSpec, st: &mut State, w: &Which) {
     }
     match &b.topo {
         Topo::Unary(u) if w.c07 => c07_step(b, g, st, *u),
-        Topo::Merge(n) if w.c08 && *n >= 1 => c08_step(b, g, st, *n, from, to),
-        Topo::Concat(n) if w.c09 && *n >= 1 => c09_step(b, g, st, *n, from, to),
-        Topo::Combine(n) if w.c10 => c10_step(b, g, st, *n, from, to),
-        Topo::Flatten(_) if w.c11 => c11_step(b, g, st, from, to),
+        // one evaluation per subscription of the output (the same output value may be subscribed
+        // more than once; every subscription must satisfy the statement on its own)
+        Topo::Merge(n) if w.c08 && *n >= 1 => {
+            for o in 0..b.probes.len() {
+                c08_step(b, g, st, *n, from, to, o)
+            }
+        },
+        Topo::Concat(n) if w.c09 && *n >= 1 => {
+            for o in 0..b.probes.len() {
+                c09_step(b, g, st, *n, from, to, o)
+            }
+        },
+        Topo::Combine(n) if w.c10 => {
+            for o in 0..b.probes.len() {
+                c10_step(b, g, st, *n, from, to, o)
+            }
+        },
+        Topo::Flatten(_) if w.c11 => {
+            for o in 0..b.probes.len() {
+                c11_step(b, g, st, from, to, o)
+            }
+        },
         Topo::Share(_) if w.c12 => c12_step(b, g, st, from, to),
         Topo::FromIter(_) if w.c15 => c15_step(b, g, st, from, to),
         _ => {},
@@ -532,10 +550,22 @@ fn c07_step(b: &Built, g: &mut Inner, st: &mut State, u: UnOp) {
     if b.puppets[0].mode() != Mode::Listen {
         return;
     }
-    let (pe, se) = match (edge_of_puppet(g, 0, 0), edge_of_probe(g, 0)) {
-        (Some(a), Some(c)) => (a, c),
-        _ => return,
-    };
+    // one comparison per subscription of the output: sink i against the upstream subscription
+    // that was made for it
+    for pi in 0..b.probes.len() {
+        let se = match edge_of_probe(g, pi) {
+            Some(e) => e,
+            None => continue,
+        };
+        let pe = match puppet_edges(g).into_iter().find(|e| g.edges[*e].owner == pi as i32) {
+            Some(e) => e,
+            None => continue,
+        };
+        c07_one(b, g, st, u, pe, se);
+    }
+}
+
+fn c07_one(b: &Built, g: &mut Inner, st: &mut State, u: UnOp, pe: EdgeId, se: EdgeId) {
     let xs_ev = evs(g, pe, Dir::Down, &[Kind::Data]);
     let xs: Vec<i64> = xs_ev.iter().map(|i| g.events[*i].val.a[0]).collect();
     let ys_ev = evs(g, se, Dir::Down, &[Kind::Data]);
@@ -565,6 +595,26 @@ fn c07_step(b: &Built, g: &mut Inner, st: &mut State, u: UnOp) {
         produced = upto;
     }
     if let UnOp::Take(n) = u {
+        if ys.len() >= n {
+            // "disposes upstream immediately after the nth item": exactly one stop, inside the
+            // delivery of the input that carried the nth item (also when the sink itself
+            // disposed from inside that handler: then the relay of its disposal is that stop)
+            let cause = xs_ev[n - 1];
+            let stops = evs(g, pe, Dir::Up, &[Kind::Terminate, Kind::Error]).into_iter().filter(|j| within(g, *j, cause)).count();
+            bump(st, "c07.take-upstream-stop");
+            if stops != 1 {
+                report(
+                    g,
+                    st,
+                    &["C07"],
+                    "take-did-not-dispose-upstream-exactly-once-at-nth",
+                    &op,
+                    pe,
+                    cause as i32,
+                    format!("take({}): upstream was told to stop {} times during the delivery of the nth item", n, stops),
+                );
+            }
+        }
         if ys.len() >= n && !disposed {
             bump(st, "c07.take-complete");
             // the nth item: sink completed and upstream disposed immediately, i.e. within the
@@ -648,8 +698,13 @@ struct Member {
     t: Times,
 }
 
-fn members(g: &Inner, n: usize) -> Vec<Option<Member>> {
-    (0..n).map(|p| edge_of_puppet(g, p, 0).map(|e| Member { edge: e, t: times(g, e) })).collect()
+/// the subscription of puppet `p` that belongs to output subscription `owner`
+pub fn edge_of_puppet_owned(g: &Inner, p: usize, owner: usize) -> Option<EdgeId> {
+    (0..g.edges.len()).find(|i| matches!(g.edges[*i].role, Role::Puppet(pp, _) if pp as usize == p) && g.edges[*i].owner == owner as i32)
+}
+
+fn members(g: &Inner, n: usize, owner: usize) -> Vec<Option<Member>> {
+    (0..n).map(|p| edge_of_puppet_owned(g, p, owner).map(|e| Member { edge: e, t: times(g, e) })).collect()
 }
 
 /// data emitted by the given puppet edges while the sink `se` was open, in time order
@@ -711,6 +766,22 @@ fn check_pull_fanout(
                         m.edge,
                         y as i32,
                         format!("sink Pull (event #{}) did not reach member {} which was greeted and running", y, mi),
+                    );
+                }
+            }
+            // "...to every member that has greeted and not completed": none to a member that has
+            for j in &got {
+                let t = g.events[*j].t_in;
+                if m.t.dterm_in < t {
+                    report(
+                        g,
+                        st,
+                        &[prop],
+                        "pull-forwarded-to-completed-member",
+                        op,
+                        m.edge,
+                        *j as i32,
+                        format!("member {} had already ended when the sink's Pull (event #{}) was forwarded to it", mi, y),
                     );
                 }
             }
@@ -813,13 +884,13 @@ fn check_data_sequence(
 // C08 merge
 // ---------------------------------------------------------------------------------------------
 
-fn c08_step(b: &Built, g: &mut Inner, st: &mut State, n: usize, from: usize, to: usize) {
-    let se = match edge_of_probe(g, 0) {
+fn c08_step(b: &Built, g: &mut Inner, st: &mut State, n: usize, from: usize, to: usize, owner: usize) {
+    let se = match edge_of_probe(g, owner) {
         Some(e) => e,
         None => return,
     };
     let op = b.op.clone();
-    let mem = members(g, n);
+    let mem = members(g, n, owner);
     let ts = times(g, se);
     // (a) greeted when the first member greets
     let first = mem
@@ -887,13 +958,13 @@ fn c08_step(b: &Built, g: &mut Inner, st: &mut State, n: usize, from: usize, to:
 // C09 concat
 // ---------------------------------------------------------------------------------------------
 
-fn c09_step(b: &Built, g: &mut Inner, st: &mut State, n: usize, _from: usize, _to: usize) {
-    let se = match edge_of_probe(g, 0) {
+fn c09_step(b: &Built, g: &mut Inner, st: &mut State, n: usize, _from: usize, _to: usize, owner: usize) {
+    let se = match edge_of_probe(g, owner) {
         Some(e) => e,
         None => return,
     };
     let op = b.op.clone();
-    let mem = members(g, n);
+    let mem = members(g, n, owner);
     let ts = times(g, se);
     // (a) member k+1 is subscribed only after member k has completed
     for k in 1..n {
@@ -977,8 +1048,8 @@ fn c09_step(b: &Built, g: &mut Inner, st: &mut State, n: usize, _from: usize, _t
 // C10 combine
 // ---------------------------------------------------------------------------------------------
 
-fn c10_step(b: &Built, g: &mut Inner, st: &mut State, n: usize, from: usize, to: usize) {
-    let se = match edge_of_probe(g, 0) {
+fn c10_step(b: &Built, g: &mut Inner, st: &mut State, n: usize, from: usize, to: usize, owner: usize) {
+    let se = match edge_of_probe(g, owner) {
         Some(e) => e,
         None => return,
     };
@@ -987,7 +1058,7 @@ fn c10_step(b: &Built, g: &mut Inner, st: &mut State, n: usize, from: usize, to:
         return;
     }
     let op = b.op.clone();
-    let mem = members(g, n);
+    let mem = members(g, n, owner);
     let ts = times(g, se);
     // (a) greeted once all members have greeted
     if mem.iter().all(|m| m.as_ref().map(|m| m.t.greet_ev >= 0).unwrap_or(false)) {
@@ -1045,12 +1116,12 @@ fn c10_step(b: &Built, g: &mut Inner, st: &mut State, n: usize, from: usize, to:
 // C11 flatten
 // ---------------------------------------------------------------------------------------------
 
-fn c11_step(b: &Built, g: &mut Inner, st: &mut State, from: usize, to: usize) {
-    let se = match edge_of_probe(g, 0) {
+fn c11_step(b: &Built, g: &mut Inner, st: &mut State, from: usize, to: usize, owner: usize) {
+    let se = match edge_of_probe(g, owner) {
         Some(e) => e,
         None => return,
     };
-    let oe = match edge_of_puppet(g, 0, 0) {
+    let oe = match edge_of_puppet_owned(g, 0, owner) {
         Some(e) => e,
         None => return,
     };
@@ -1059,7 +1130,7 @@ fn c11_step(b: &Built, g: &mut Inner, st: &mut State, from: usize, to: usize) {
     let to_ = times(g, oe);
     let n_inner = b.info.inners.len();
     let inner: Vec<Option<Member>> =
-        (1..=n_inner).map(|p| edge_of_puppet(g, p, 0).map(|e| Member { edge: e, t: times(g, e) })).collect();
+        (1..=n_inner).map(|p| edge_of_puppet_owned(g, p, owner).map(|e| Member { edge: e, t: times(g, e) })).collect();
     let active_at = |g: &Inner, t: u32| -> Option<usize> {
         let _ = g;
         inner.iter().position(|m| m.as_ref().map(|m| m.t.live_at(t)).unwrap_or(false))
